@@ -23,6 +23,21 @@ typedef vctx network_interface_t;
 extern void flow_send_hello_record(void *ni);
 static void sendHelloMessage(void *networkInterface) { flow_send_hello_record(networkInterface); }
 
+#ifdef NO_FLOW
+/* The frame-processing flow could not be sliced out of darwin-main.c (its anchors moved): the documented flow is then
+ * unavailable ("flow" operations do nothing, property C12 cannot be re-established); the tick keeps working with the
+ * wiring written out here, so that the properties which only need a tick are not affected. */
+void flow_run(void *ctx, long recvLen_) { (void)ctx; (void)recvLen_; }
+void flow_tick(void *ctx) {
+    network_interface_t *currentNetworkInterface = ctx;
+    lltd_automata_tick_port tick_port = {
+        .network_interface = currentNetworkInterface,
+        .last_hello_tx_ms = &currentNetworkInterface->LastHelloTxMs,
+        .send_hello = sendHelloMessage,
+    };
+    automata_tick(currentNetworkInterface->mappingAutomata, currentNetworkInterface->enumerationAutomata, currentNetworkInterface->sessionTable, &tick_port);
+}
+#else
 void flow_run(void *ctx, long recvLen_) {
     network_interface_t *currentNetworkInterface = ctx;
     ssize_t recvLen = (ssize_t)recvLen_;
@@ -34,3 +49,4 @@ void flow_tick(void *ctx) {
     network_interface_t *currentNetworkInterface = ctx;
 #include "flow_tick.inc"
 }
+#endif
